@@ -98,6 +98,7 @@ type Config struct {
 }
 
 type World struct {
+	rootGid uint64
 	mu       sync.Mutex
 	cfg      Config
 	byGid    map[uint64]*Task
@@ -156,6 +157,7 @@ func NewWorld(cfg Config) *World {
 	w := &World{cfg: cfg, byGid: map[uint64]*Task{}, notify: make(chan struct{}, 1), siteSeq: map[string]int{},
 		SitePairs: map[string]struct{}{}}
 	w.Start = time.Now() // bubble clock: worlds are created inside the bubble
+	w.rootGid = goid()
 	return w
 }
 
@@ -180,7 +182,18 @@ func (w *World) self() *Task {
 	w.mu.Lock()
 	t := w.byGid[g]
 	if t == nil {
-		t = w.newTask(w.taskName("foreign"), false)
+		// the bubble's root goroutine (it runs the scheduler loop and the
+		// scenario's set-up code) must never park: foreign, not owned. Any other
+		// unknown goroutine was started by uninstrumented library code on behalf
+		// of the system (net/http's per-connection goroutine in the WebSocket
+		// handshake): it is adopted as an owned task at its first contact, so that
+		// it runs only when the scheduler chooses it instead of racing the task
+		// that started it.
+		if g == w.rootGid {
+			t = w.newTask(w.taskName("foreign"), false)
+		} else {
+			t = w.newTask(w.taskName("adopted"), true)
+		}
 		t.gid = g
 		w.byGid[g] = t
 	}
